@@ -334,15 +334,25 @@ class ShimFuture:
             return True
         return self.state == "cancelled"
 
-    def _wait(self):
+    def _wait(self, timeout=None):
+        """Block until done; with a timeout the scheduler may let the wait time out instead (as the real future does when the
+        work item takes longer than that)."""
+        import concurrent.futures as cf
+
         if self.state not in ("finished", "cancelled"):
-            current().block(lambda: self.state in ("finished", "cancelled"))
+            if timeout is not None and timeout <= 0:
+                raise cf.TimeoutError()
+            s = current()
+            timed_out = s.block(lambda: self.state in ("finished", "cancelled"), timeout_ok=timeout is not None)
+            if timed_out and self.state not in ("finished", "cancelled"):
+                s.clock += timeout
+                raise cf.TimeoutError()
 
     def exception(self, timeout=None):
         import concurrent.futures as cf
 
         current().point("exception")
-        self._wait()
+        self._wait(timeout)
         if self.state == "cancelled":
             raise cf.CancelledError()
         return self._exc
@@ -351,7 +361,7 @@ class ShimFuture:
         import concurrent.futures as cf
 
         current().point("result")
-        self._wait()
+        self._wait(timeout)
         if self.state == "cancelled":
             raise cf.CancelledError()
         if self._exc is not None:
